@@ -205,3 +205,115 @@ def _c08_channels(has_files: bool, has_list: bool, has_sig: bool) -> bool:
     a = (bool(has_files), bool(has_list), bool(has_sig))
     with NoTracing():
         return _channels_concrete(*a)[0]
+
+
+# ---- (3) context freedom with nothing stubbed: real query() on a small real database ------------------------------------------
+# A row depends only on its genome and the database: alone or within any batch, in any order, for every reference chunk size.
+
+from sqlalchemy import create_engine
+from sqlalchemy.orm import sessionmaker
+from gambit.db.models import Base, Genome, AnnotatedGenome, ReferenceGenomeSet, Taxon
+from gambit.db.refdb import ReferenceDatabase
+from gambit.db.sqla import ReadOnlySession
+from gambit.sigs.base import SignatureArray, SignatureList, AnnotatedSignatures, SignaturesMeta
+from gambit.query import QueryParams, query as real_query
+
+CKS = KmerSpec(8, 'ATG')
+NREF = 5
+
+
+def _mk_sig(seed, n=40):
+    import random
+    r = random.Random(seed)
+    return np.array(sorted(r.sample(range(600), n)), dtype=CKS.index_dtype)
+
+
+def _mk_db():
+    engine = create_engine('sqlite://')
+    Base.metadata.create_all(engine)
+    s = sessionmaker(engine)()
+    gset = ReferenceGenomeSet(key='ctx', version='1', name='context test')
+    genus = Taxon(key='g', name='Genus', rank='genus', genome_set=gset, distance_threshold=0.95)
+    sp = [Taxon(key=f's{i}', name=f'Genus species{i}', rank='species', genome_set=gset, distance_threshold=0.6, parent=genus) for i in range(2)]
+    s.add(gset)
+    refsigs = []
+    for i in range(NREF):
+        g = Genome(key=f'r{i}', description=f'reference {i}')
+        s.add(AnnotatedGenome(genome=g, genome_set=gset, taxon=sp[i % 2] if i < 4 else genus, organism='o'))
+        refsigs.append(_mk_sig(100 + i))
+    s.commit()
+    ro = sessionmaker(engine, class_=ReadOnlySession)()
+    gs = ro.query(ReferenceGenomeSet).one()
+    # stored in another order than the genome set, with an unrelated signature in between
+    order = [3, 0, 4, 1, 2]
+    sigs = [refsigs[i] for i in order[:2]] + [_mk_sig(999)] + [refsigs[i] for i in order[2:]]
+    ids = [f'r{i}' for i in order[:2]] + ['unrelated'] + [f'r{i}' for i in order[2:]]
+    ann = AnnotatedSignatures(SignatureArray(sigs, CKS), ids, SignaturesMeta(id_attr='key'))
+    return ReferenceDatabase(gs, ann), refsigs
+
+
+CDB, CREFS = _mk_db()
+# queries: near reference 0, near reference 3, in between, far from everything, identical to reference 4
+CQ = [np.array(sorted(set(CREFS[0].tolist()[:34]) | {601, 602}), dtype=CKS.index_dtype), np.array(sorted(set(CREFS[3].tolist()[5:]) | {603}), dtype=CKS.index_dtype),
+      np.array(sorted(set(CREFS[1].tolist()[:20]) | set(CREFS[2].tolist()[:20])), dtype=CKS.index_dtype), np.array([610, 611, 612], dtype=CKS.index_dtype), CREFS[4].copy()]
+CHUNKS = [None, 1, 2, 3, 4, 5, 6, 7, 1000]
+
+
+def _row(item):
+    cr = item.classifier_result
+    return (item.report_taxon.key if item.report_taxon is not None else None, cr.success, cr.predicted_taxon.key if cr.predicted_taxon is not None else None,
+            cr.next_taxon.key if cr.next_taxon is not None else None, tuple((m.genome.key, np.float32(m.distance).tobytes().hex()) for m in item.closest_genomes), tuple(cr.warnings))
+
+
+_ALONE = {}
+
+
+def _alone(qi):
+    if qi not in _ALONE:
+        res = real_query(CDB, SignatureList([CQ[qi]], CKS), QueryParams(), progress=None)
+        _ALONE[qi] = _row(res.items[0])
+    return _ALONE[qi]
+
+
+def _context_concrete(n, picks, chunk_i, strict):
+    qs = picks[:n]
+    params = QueryParams(classify_strict=bool(strict)) if CHUNKS[chunk_i] is None else QueryParams(chunksize=CHUNKS[chunk_i], classify_strict=bool(strict))
+    res = real_query(CDB, SignatureList([CQ[q] for q in qs], CKS), params, progress=None)
+    if len(res.items) != n:
+        return False, f'{len(res.items)} rows for {n} inputs'
+    for pos, q in enumerate(qs):
+        if strict:
+            alone = _row(real_query(CDB, SignatureList([CQ[q]], CKS), QueryParams(classify_strict=True), progress=None).items[0])
+        else:
+            alone = _alone(q)
+        got = _row(res.items[pos])
+        if got != alone:
+            return False, f'row {pos} (query #{q}) in batch {qs} with chunk size {CHUNKS[chunk_i]} is {got}; alone with default parameters it is {alone}'
+    return True, None
+
+
+def _context_cell(n, picks, chunk_i):
+    for strict in (False, True):
+        ok, why = _context_concrete(n, picks, chunk_i, strict)
+        if not ok:
+            return False, f'strict={strict}: {why}'
+    return True, None
+
+
+def _context_run(n, p0, p1, p2, chunk_i):
+    a = (fork_int(n, 1, 3), [fork_int(p, 0, len(CQ) - 1) for p in (p0, p1, p2)], fork_int(chunk_i, 0, len(CHUNKS) - 1))
+    with NoTracing():
+        return _context_cell(*a)
+
+
+def _c08_context(n: int, p0: int, p1: int, p2: int, chunk_i: int) -> bool:
+    """
+    pre: 1 <= n <= int(P.get('maxn', 3)) and all(0 <= p < len(CQ) for p in (p0, p1, p2)) and 0 <= chunk_i < len(CHUNKS) and (n > 1 or p1 == 0) and (n > 2 or p2 == 0)
+    pre: 'chunk_i' not in P or chunk_i == P['chunk_i']
+    post: _
+    """
+    return _context_run(n, p0, p1, p2, chunk_i)[0]
+
+
+def explain_c08_context(n, p0, p1, p2, chunk_i):
+    return {'batch (query numbers)': [p0, p1, p2][:n], 'chunk size': CHUNKS[chunk_i], 'references': NREF, 'why': _context_run(n, p0, p1, p2, chunk_i)[1]}
